@@ -2,7 +2,7 @@
    constants below (they mirror the unchanged tree and do not depend on the generated table, so they keep checking
    after the repository is repaired); the generated table of a run is classified against them by run.py. *)
 From Coq Require Import String List Bool NArith.
-From OG Require Import C19.Model C19.Privileges C19.Proofs.
+From OG Require Import C19.Model C19.Privileges C19.AuthCache C19.Proofs.
 Import ListNotations.
 Open Scope string_scope.
 Open Scope N_scope.
@@ -128,3 +128,13 @@ Theorem C19_debug_prefix_repaired :
                                (mk_route "none" "GET" path "" SigUser "") KOpaque anonymous with (401, []) => true | _ => false end)
           ["/debug/vars"; "/debug/query"; "/debug/pprof/heap"] = true /\ unexempt_prefixes [] prefixes_repaired = [].
 Proof. vm_compute. split; reflexivity. Qed.
+
+(* a client that refreshes the password cache only after user commands (seeded change C19-m6, not the repository): a
+   password replaced through a full snapshot still authenticates *)
+Theorem C19_refresh_only_on_user_commands_refuted :
+  exists evs us0 n p,
+    let st := run verify_plain refresh_on_user_commands_only [] us0 evs in
+    fst (authenticate_c verify_plain (fst st) (snd st) n p) = true /\
+    forall u, find_cuser (snd st) n = Some u -> verify_plain (cu_hash u) p = false.
+Proof. exact refresh_on_user_commands_only_is_stale. Qed.
+Print Assumptions C19_refresh_only_on_user_commands_refuted.
